@@ -45,6 +45,10 @@ package eval
 //@   inline 8 2
 //@   safe
 //@   witness assert#0 ", 1"
+//@   # the list of assignment targets handed to `=` (Bind) has no nil entry: Bind writes through
+//@   # every element (handleMultipleToMultipleAsigntment / ...ToScalar...)
+//@   callsite[C01] SetLastEvaluatedT typeis(a_some, "[]*ti/base.T") ==> forall(i, 0 <= i && i < len(unbox(a_some, "[]*ti/base.T")) ==> unbox(a_some, "[]*ti/base.T")[i] != nil)
+//@   witness site:call.0#0 ", a = 1, 2\n"
 
 //@ func (*ti/eval.Def).evaluationBody
 //@   requires wfP(p)
